@@ -152,7 +152,7 @@ def skelNames : List String := [
   "setup_file = find_script(options.setup)",
   "__file__ = setup_file",
   "__name__ = '__main__'",
-  "sys.path.insert(0, os.path.dirname(setup_file))",
+  "sys.path.insert(1 if module else 0, os.path.dirname(setup_file))",
   "ns = locals()",
   "execfile(setup_file, ns, ns)",
   "if: options.line_by_line",
